@@ -57,6 +57,21 @@ theorem ap_top_ne_of_user {s : St} (hi : SInv s) {a z : Nat} (hu : User s a z) :
   · simp only [Bool.and_eq_true, decide_eq_true_eq] at ht
     exact ht.1.1.1.1.1.1
 
+/-! ### `FpOk` follows the bookkeeping relation `Book` of `Proofs/DlStep.lean` -/
+
+theorem ap_segSum_eq (l : List Seg) : segSum l = (l.map (·.size)).sum := by
+  induction l with
+  | nil => rfl
+  | cons g gs ih => simp [segSum, ih]
+
+theorem ap_fp_of_book {s s' : St} (hfp : FpOk s) (hb : Book s s') : FpOk s' := by
+  unfold FpOk at *
+  have := hb.fp
+  rw [ap_segSum_eq, ap_segSum_eq] at this
+  omega
+
+theorem ap_fpOk_init : FpOk Dl.init := rfl
+
 /-! ## 2. entry-point progress -/
 
 theorem ap_inner_malloc_prog (hmn : malloc_nosys_Prog) (hsa : sys_alloc_Prog) : inner_malloc_Prog := by
@@ -73,7 +88,7 @@ theorem ap_inner_malloc_prog (hmn : malloc_nosys_Prog) (hsa : sys_alloc_Prog) : 
       exact hsa hi (as_nbOk (as_needSys_lt hr) hbig) hos e he
 
 theorem ap_free_prog (hfh : free_heap_Prog) (hst : sys_trim_Prog) (hru : release_unused_segments_Prog) : free_Prog := by
-  intro s hi hrc mem h16 hu e he
+  intro s hi hrc hfp mem h16 hu e he
   unfold free at he
   ap_esimp at he
   rcases he with he | ⟨⟨h1, t⟩, hfree, he⟩
@@ -85,7 +100,7 @@ theorem ap_free_prog (hfh : free_heap_Prog) (hst : sys_trim_Prog) (hru : release
     · ap_esimp at he
     · split at he
       · ap_esimp at he
-        exact hst hi1 e he
+        exact hst hi1 (show FpOk { s with h := h1 } from hfp) e he
       · ap_esimp at he
     · ap_esimp at he
       rcases he with ⟨hc, _⟩ | ⟨_, _, he⟩
@@ -97,7 +112,7 @@ theorem ap_free_prog (hfh : free_heap_Prog) (hst : sys_trim_Prog) (hru : release
         · ap_esimp at he
           have hi1' : SInv ({ { s with h := h1 } with release_checks := s.release_checks - 1 }.tag "release-check") :=
             as_sinv_same hi1 (as_Same.refl _)
-          exact hru hi1' e he
+          exact hru hi1' (show FpOk _ from hfp) e he
         · ap_esimp at he
 
 /-! ## 3. `RcOk` is an invariant
@@ -527,9 +542,9 @@ theorem ap_calloc_prog (hm : malloc_Prog) {s : St} (hi : SInv s) {size k : Nat} 
       · exact ap_ok_ne_err hg he
     · ap_esimp at he
 
-theorem ap_inner_realloc_prog (htr : try_realloc_chunk_Prog) (him : inner_malloc_Prog) (hfp : free_Prog)
-    {s : St} (hi : SInv s) (hrc : RcOk s) {ptr ns z : Nat} (h16 : 16 ≤ ptr) (hu : User s (ptr - 16) z) (h32 : 32 ≤ z)
-    (hbig : nbOf ns < 2 ^ 63) (hos : OsOk s (mapSize ns)) : Prog (inner_realloc s ptr ns) := by
+theorem ap_inner_realloc_prog (htr : try_realloc_chunk_Prog) (him : inner_malloc_Prog) (hfp' : free_Prog)
+    {s : St} (hi : SInv s) (hrc : RcOk s) (hfp : FpOk s) {ptr ns z : Nat} (h16 : 16 ≤ ptr) (hu : User s (ptr - 16) z)
+    (h32 : 32 ≤ z) (hbig : nbOf ns < 2 ^ 63) (hos : OsOk s (mapSize ns)) : Prog (inner_realloc s ptr ns) := by
   intro e he
   unfold inner_realloc at he
   split at he
@@ -560,6 +575,7 @@ theorem ap_inner_realloc_prog (htr : try_realloc_chunk_Prog) (him : inner_malloc
               obtain ⟨e0, hg, hmm, hsz⟩ := ap_getE_user hu1
               have r0 : ap_RcRel (s.tag "realloc-move") s1 := ap_inner_malloc_rc (ap_wfs_tag hi.wfs "realloc-move") him0
               have hrc1 : RcOk s1 := ap_rcOk_of_rel hi.wfs hi1.wfs hrc r0
+              have hfp1 : FpOk s1 := ap_fp_of_book (show FpOk (s.tag "realloc-move") from hfp) (inner_malloc_book him0)
               rw [CHUNK_OVERHEAD_eq] at he
               ap_esimp at he
               rcases he with he | ⟨e1, hg1, he⟩
@@ -572,19 +588,19 @@ theorem ap_inner_realloc_prog (htr : try_realloc_chunk_Prog) (him : inner_malloc
                 · rcases he with ⟨hc, _⟩ | ⟨_, _, he⟩
                   · simp only [decide_eq_true_eq] at hc
                     omega
-                  · exact hfp hi1 hrc1 h16 ⟨z, hu1, h32⟩ e he
+                  · exact hfp' hi1 hrc1 hfp1 h16 ⟨z, hu1, h32⟩ e he
             · ap_esimp at he
 
-theorem ap_realloc_prog (htr : try_realloc_chunk_Prog) (him : inner_malloc_Prog) (hfp : free_Prog)
+theorem ap_realloc_prog (htr : try_realloc_chunk_Prog) (him : inner_malloc_Prog) (hfp' : free_Prog)
     (hmp : malloc_Prog) : realloc_Prog := by
-  intro s hi hrc ptr osz k ns z h16 hu h32 hk hmodp hbig hos e he
+  intro s hi hrc hfp ptr osz k ns z h16 hu h32 hk hmodp hbig hos e he
   unfold realloc at he
   split at he
   · rename_i hal
     rw [MALLOC_ALIGNMENT_eq] at hal
     have hreq : reqOf ns (2 ^ k) = ns := by unfold reqOf; rw [MALLOC_ALIGNMENT_eq, if_pos hal]
     rw [hreq] at hbig hos
-    exact ap_inner_realloc_prog htr him hfp hi hrc h16 hu h32 hbig hos e he
+    exact ap_inner_realloc_prog htr him hfp' hi hrc hfp h16 hu h32 hbig hos e he
   · ap_esimp at he
     rcases he with he | ⟨⟨s1, p1⟩, hmal, he⟩
     · exact hmp (as_sinv_tag hi "realloc-overaligned") hk hbig (as_osOk_same hos rfl rfl) e he
@@ -598,8 +614,9 @@ theorem ap_realloc_prog (htr : try_realloc_chunk_Prog) (him : inner_malloc_Prog)
         have hu1 : User s1 (ptr - 16) z := as_alloc_old ha1 hu
         have r0 : ap_RcRel (s.tag "realloc-overaligned") s1 := ap_malloc_rc (ap_wfs_tag hi.wfs "realloc-overaligned") hmal
         have hrc1 : RcOk s1 := ap_rcOk_of_rel hi.wfs hi1.wfs hrc r0
+        have hfp1 : FpOk s1 := ap_fp_of_book (show FpOk (s.tag "realloc-overaligned") from hfp) (malloc_book hmal)
         ap_esimp at he
-        exact hfp hi1 hrc1 h16 ⟨z, hu1, h32⟩ e he
+        exact hfp' hi1 hrc1 hfp1 h16 ⟨z, hu1, h32⟩ e he
       · ap_esimp at he
 
 /-- the three entry-point progress theorems from the seven leaf ones -/
@@ -627,10 +644,11 @@ system calls the operation makes (wrong kind of answer, or answers left over) -/
 def StepErr (e : String) : Prop := IsDesync e ∨ e = "os-desync:unused-answers"
 
 theorem ap_rcOk_start {hs : Hist} (h : RcOk hs.st) (os : List OsDir) : RcOk (hs.start os) := h
+theorem ap_fpOk_start {hs : Hist} (h : FpOk hs.st) (os : List OsDir) : FpOk (hs.start os) := h
 
 /-- **progress of one step**, from the entry-point progress theorems -/
 theorem step_progress_of_entry_progs (hm : malloc_Prog) (hf : free_Prog) (hr : realloc_Prog)
-    {hs : Hist} {op : Op} {os : List OsDir} (hi : Inv2 hs) (hrc : RcOk hs.st) (hop : OpOk hs op os)
+    {hs : Hist} {op : Op} {os : List OsDir} (hi : Inv2 hs) (hrc : RcOk hs.st) (hfp : FpOk hs.st) (hop : OpOk hs op os)
     (hv : ValidOp hs op) : ∀ e, hs.step op os = .error e → StepErr e := by
   intro e he
   obtain ⟨hinv, huq, hao⟩ := hi
@@ -672,7 +690,7 @@ theorem step_progress_of_entry_progs (hm : malloc_Prog) (hf : free_Prog) (hr : r
       rw [hal] at hmodp
       ap_esimp at he
       rcases he with he | ⟨⟨s1, p, c⟩, _, he⟩
-      · exact Or.inl (hr hsi (ap_rcOk_start hrc os) h16 hu h32 hk hmodp hbig hos e he)
+      · exact Or.inl (hr hsi (ap_rcOk_start hrc os) (ap_fpOk_start hfp os) h16 hu h32 hk hmodp hbig hos e he)
       · exact Or.inr he.2.symm
   · -- free
     split at he
@@ -686,7 +704,7 @@ theorem step_progress_of_entry_progs (hm : malloc_Prog) (hf : free_Prog) (hr : r
       obtain ⟨h16, _, _, z, hu, _, h32⟩ := hl.blocks b hb0
       ap_esimp at he
       rcases he with he | ⟨s1, _, he⟩
-      · exact Or.inl (hf hsi (ap_rcOk_start hrc os) h16 ⟨z, hu, h32⟩ e he)
+      · exact Or.inl (hf hsi (ap_rcOk_start hrc os) (ap_fpOk_start hfp os) h16 ⟨z, hu, h32⟩ e he)
       · exact Or.inr he.2.symm
 
 /-- **progress of one step**, from the leaf progress theorems: from a state satisfying the invariant, an operation
@@ -694,10 +712,10 @@ the caller is entitled to make cannot trip a `debug_assert!`, underflow, read an
 direct-mmap branch or miss a chunk in its bin — the only error outcomes left are the `os-desync` ones -/
 theorem step_progress_of_progs (h1 : malloc_nosys_Prog) (h2 : sys_alloc_Prog) (h3 : free_heap_Prog) (h4 : sys_trim_Prog)
     (h5 : release_unused_segments_Prog) (h6 : try_realloc_chunk_Prog) (h7 : memalign_fix_Prog)
-    {hs : Hist} {op : Op} {os : List OsDir} (hi : Inv2 hs) (hrc : RcOk hs.st) (hop : OpOk hs op os)
+    {hs : Hist} {op : Op} {os : List OsDir} (hi : Inv2 hs) (hrc : RcOk hs.st) (hfp : FpOk hs.st) (hop : OpOk hs op os)
     (hv : ValidOp hs op) : ∀ e, hs.step op os = .error e → IsDesync e ∨ e = "os-desync:unused-answers" := by
   obtain ⟨hm, hf, hr⟩ := ap_entry_progs h1 h2 h3 h4 h5 h6 h7
-  exact step_progress_of_entry_progs hm hf hr hi hrc hop hv
+  exact step_progress_of_entry_progs hm hf hr hi hrc hfp hop hv
 
 /-- the invariant after a step (the assembled inductiveness theorem) -/
 theorem ap_inv_step {hs hs' : Hist} {op : Op} {os : List OsDir} {out : Out}
@@ -744,6 +762,21 @@ theorem rcOk_step {hs hs' : Hist} {op : Op} {os : List OsDir} {out : Out}
       subst h1
       exact ap_free_rc hfree
 
+/-- **`FpOk` is preserved by every step** (no invariant needed: pure bookkeeping, `step_book`) -/
+theorem fpOk_step {hs hs' : Hist} {op : Op} {os : List OsDir} {out : Out}
+    (hfp : FpOk hs.st) (h : hs.step op os = .ok (hs', out)) : FpOk hs'.st :=
+  ap_fp_of_book (ap_fpOk_start hfp os) (step_book h)
+
+/-- the full invariant of the progress theorem -/
+def Inv3 (hs : Hist) : Prop := Inv2 hs ∧ RcOk hs.st ∧ FpOk hs.st
+
+theorem inv3_init : Inv3 Hist.init := ⟨inv2_init, ap_rcOk_init, ap_fpOk_init⟩
+
+/-- **`Inv3` is preserved by every successful step** -/
+theorem ap_inv3_step {hs hs' : Hist} {op : Op} {os : List OsDir} {out : Out}
+    (hi : Inv3 hs) (hop : OpOk hs op os) (h : hs.step op os = .ok (hs', out)) : Inv3 hs' :=
+  ⟨ap_inv_step hi.1 hop h, rcOk_step hi.1 hi.2.1 hop h, fpOk_step hi.2.2 h⟩
+
 /-! ## 6. whole histories -/
 
 /-- every operation of the history satisfies `OpOk` and `ValidOp` in the state it is applied to -/
@@ -771,19 +804,19 @@ theorem RunOk2.prefix : ∀ {a b : List (Op × List OsDir)} {hs : Hist}, RunOk2 
     obtain ⟨op, os⟩ := x
     exact ⟨h.1, h.2.1, fun hs1 out hst => ih (h.2.2 hs1 out hst)⟩
 
-/-- the invariant and `RcOk` along a history -/
-theorem ap_run_inv (ops : List (Op × List OsDir)) : ∀ {hs hs' : Hist} {evs : List OsEv}, Inv2 hs → RcOk hs.st →
-    RunOk2 hs ops → hs.run ops = .ok (hs', evs) → Inv2 hs' ∧ RcOk hs'.st := by
+/-- the invariant along a history -/
+theorem ap_run_inv (ops : List (Op × List OsDir)) : ∀ {hs hs' : Hist} {evs : List OsEv}, Inv3 hs →
+    RunOk2 hs ops → hs.run ops = .ok (hs', evs) → Inv3 hs' := by
   induction ops with
   | nil =>
-    intro hs hs' evs hi hrc _ h
+    intro hs hs' evs hi _ h
     unfold Hist.run at h
     msimp at h
     simp only [Prod.mk.injEq] at h
     obtain ⟨h1, _⟩ := h; subst h1
-    exact ⟨hi, hrc⟩
+    exact hi
   | cons x rest ih =>
-    intro hs hs' evs hi hrc hok h
+    intro hs hs' evs hi hok h
     obtain ⟨op, os⟩ := x
     obtain ⟨hop, _, hrest⟩ := hok
     unfold Hist.run at h
@@ -791,26 +824,26 @@ theorem ap_run_inv (ops : List (Op × List OsDir)) : ∀ {hs hs' : Hist} {evs : 
     obtain ⟨⟨hs1, o1⟩, h1, ⟨hs2, e2⟩, h2, h⟩ := h
     simp only [Prod.mk.injEq] at h
     obtain ⟨e1, _⟩ := h; subst e1
-    exact ih (ap_inv_step hi hop h1) (rcOk_step hi hrc hop h1) (hrest hs1 o1 h1) h2
+    exact ih (ap_inv3_step hi hop h1) (hrest hs1 o1 h1) h2
 
 /-- **progress of a history**: a history all of whose operations are `OpOk` and `ValidOp` when they are applied either
 runs to the end or stops at an operation whose OS answers do not match its system calls -/
 theorem run_progress_from (hm : malloc_Prog) (hf : free_Prog) (hr : realloc_Prog) (ops : List (Op × List OsDir)) :
-    ∀ {hs : Hist}, Inv2 hs → RcOk hs.st → RunOk2 hs ops → ∀ e, hs.run ops = .error e → StepErr e := by
+    ∀ {hs : Hist}, Inv3 hs → RunOk2 hs ops → ∀ e, hs.run ops = .error e → StepErr e := by
   induction ops with
   | nil =>
-    intro hs _ _ _ e he
+    intro hs _ _ e he
     unfold Hist.run at he
     ap_esimp at he
   | cons x rest ih =>
-    intro hs hi hrc hok e he
+    intro hs hi hok e he
     obtain ⟨op, os⟩ := x
     obtain ⟨hop, hv, hrest⟩ := hok
     unfold Hist.run at he
     ap_esimp at he
     rcases he with he | ⟨⟨hs1, o1⟩, h1, he⟩
-    · exact step_progress_of_entry_progs hm hf hr hi hrc hop hv e he
-    · exact ih (ap_inv_step hi hop h1) (rcOk_step hi hrc hop h1) (hrest hs1 o1 h1) e he
+    · exact step_progress_of_entry_progs hm hf hr hi.1 hi.2.1 hi.2.2 hop hv e he
+    · exact ih (ap_inv3_step hi hop h1) (hrest hs1 o1 h1) e he
 
 /-- … from the initial state, from the leaf progress theorems; together with `RunOk2.prefix`: every prefix of such a
 history either runs or stops with a desync -/
@@ -818,10 +851,9 @@ theorem run_progress_of_progs (h1 : malloc_nosys_Prog) (h2 : sys_alloc_Prog) (h3
     (h5 : release_unused_segments_Prog) (h6 : try_realloc_chunk_Prog) (h7 : memalign_fix_Prog)
     {ops : List (Op × List OsDir)} (hok : RunOk2 Hist.init ops) :
     (∀ e, Hist.init.run ops = .error e → IsDesync e ∨ e = "os-desync:unused-answers") ∧
-    (∀ hs' evs, Hist.init.run ops = .ok (hs', evs) → Inv2 hs' ∧ RcOk hs'.st) := by
+    (∀ hs' evs, Hist.init.run ops = .ok (hs', evs) → Inv3 hs') := by
   obtain ⟨hm, hf, hr⟩ := ap_entry_progs h1 h2 h3 h4 h5 h6 h7
-  exact ⟨run_progress_from hm hf hr ops inv2_init ap_rcOk_init hok,
-    fun hs' evs h => ap_run_inv ops inv2_init ap_rcOk_init hok h⟩
+  exact ⟨run_progress_from hm hf hr ops inv3_init hok, fun hs' evs h => ap_run_inv ops inv3_init hok h⟩
 
 /-! ## 7. non-vacuity (kernel-evaluated) -/
 
@@ -841,9 +873,10 @@ theorem ap_demo_rcOk : RcOk as_demo.st ∧ as_demo.st.h.top ≠ 0 ∧ as_demo.st
 set_option maxRecDepth 40000 in
 /-- hypotheses of `step_progress_of_progs` for a `malloc` that needs a mapping but is handed no OS answer: the step
 does stop, with one of the outcomes the theorem allows -/
-example : Inv2 as_demo ∧ RcOk as_demo.st ∧ OpOk as_demo (.malloc 7 100000 8) [] ∧ ValidOp as_demo (.malloc 7 100000 8) ∧
+example : Inv2 as_demo ∧ RcOk as_demo.st ∧ FpOk as_demo.st ∧ OpOk as_demo (.malloc 7 100000 8) [] ∧
+    ValidOp as_demo (.malloc 7 100000 8) ∧
     as_demo.step (.malloc 7 100000 8) [] = .error "os-desync:mmap" ∧ IsDesync "os-desync:mmap" := by
-  refine ⟨as_demo_inv2.1, ap_demo_rcOk.1, ⟨3, by decide, by decide, by unfold as_BigOk; decide, ?_⟩, by unfold ValidOp; decide,
+  refine ⟨as_demo_inv2.1, ap_demo_rcOk.1, by unfold FpOk; decide, ⟨3, by decide, by decide, by unfold as_BigOk; decide, ?_⟩, by unfold ValidOp; decide,
     ?_, Or.inl rfl⟩
   · intro tbase q hq
     cases hq
